@@ -24,7 +24,7 @@ CHECKS["C03"] = ("bfs+sweep (worker subprocesses)", "model_checking",
     "(one byte per class of the production DFA that matters structurally) is visited and from each every continuation of length <= 2 (3) "
     "is fed whole, byte by byte and with empty reads; all strings up to length 4-5 over the alphabet (and all byte strings up to length 2-3) "
     "are decoded under ALL partitions into reads - each partition twice: as separate reads and as successive fill_buf slices of ONE reader; "
-    "for every looping state of the automata a read of 32 / 65 filler bytes followed by every way of leaving the loop starts inside the loop (bulk handling of long reads); the incremental tokeniser core is instantiated (hook H1) over every set of up to 2 (3) "
+    "for every looping state of the automata a read of 32 / 65 filler bytes followed by every way of leaving the loop starts inside the loop (bulk handling of long reads), also with 70 000 and 1 100 000 filler bytes; the incremental tokeniser core is instantiated (hook H1) over every set of up to 2 (3) "
     "patterns from a pool of 14 and run on every input over {a,b,c} up to length 7 (8) under all partitions. Each execution is compared with "
     "the others (same events, same final state) and with a reference leftmost-longest tokenisation computed from per-prefix acceptance of "
     "the DFA (production) / from regular-expression derivatives (pattern sets). States/transitions are those of the real decoder.",
@@ -35,8 +35,8 @@ CHECKS["C01"] = ("bfs", "model_checking",
     "explicit-state BFS over renderer histories of the real TerminalRenderer against a VT screen model, differential vs from-scratch repaint",
     "A state is the real renderer (back buffer, marks, glyph cache read through hook H3) together with a reference VT screen that executed every "
     "command the renderer issued. Transitions: draw any surface of the grid and call frame; draw-and-reset without a frame; clear(); clear()+new(clear=true); "
-    "a frame whose commands are lost followed by clear(). For each of 7 (10) grids up to 2x3 / 1x7 the search runs over ALL surfaces built from up to 11 of 14 cell kinds "
-    "(narrow, wide, coloured, underlined blanks, four images incl. equal content in a different allocation and a two-row one, two glyphs, one of them under two faces; "
+    "a frame whose commands are lost followed by clear(). For each of 11 (19) grids up to 2x3 / 1x7 / 4x2 (some taller than wide) the search runs over ALL surfaces built from up to 11 of 19 cell kinds "
+    "(narrow, wide, coloured, underlined blanks, four images incl. equal content in a different allocation and a two-row one, two tiles of one sprite sheet, two glyphs, one of them under two faces and once inside a frame, non-ASCII white space; "
     "a glyph must show as the image its own rasterisation gives for that face and cell size) and continues to a fixpoint of the state graph; "
     "after every frame the screen must equal what a fresh renderer paints on a blank screen, the from-scratch screen must equal the direct reading of the surface when nothing overlaps, "
     "and no command may address a cell outside the grid or print in the pending-wrap column.",
@@ -46,7 +46,7 @@ CHECKS["C01"] = ("bfs", "model_checking",
 CHECKS["C16"] = ("bfs + devdfs (worker subprocesses)", "model_checking",
     "explicit-state BFS of the real IOQueue against a byte model + deviation-bounded enumeration of kernel answers for the real UnixTerminal on a pty",
     "(a) BFS over all histories of write/flush/read/consume/consume_with/fill_buf/clear_but_last on the real IOQueue (payload capped) to the depth bound: in every state "
-    "len() must equal the readable bytes, bytes come out in order exactly once, and a drop may remove only whole flush-delimited chunks that have not started; a second pass over one-byte and 64 KiB / 70 001-byte writes and consumes to depth 7 (9) covers buffer re-allocation thresholds. "
+    "len() must equal the readable bytes, bytes come out in order exactly once, and a drop may remove only whole flush-delimited chunks that have not started; a second pass over one-byte and 64 KiB / 70 001-byte writes and consumes to depth 7 (9) and a third over a 3.3 MB chunk with consumes of 1 MiB + 1 and 2.2 MB to depth 4 (5) cover buffer re-allocation and block-release thresholds. "
     "(b) The real UnixTerminal runs scripted write/execute/flush/poll/frames_drop sessions on a real pseudo-terminal while hook H2 lets the harness answer every "
     "select/write/read and own the clock; ALL schedules with at most 2 (3; short sessions 3 (4), in the quick tier not those pushing more than 64 KiB) departures from the cooperative answer (short write of 1 / half / len-1 bytes, EAGAIN, EINTR, "
     "withheld or delayed writability) are executed to completion, for every crash point of every session; the bytes accepted by the tty must be the written chunks in order, whole, "
@@ -56,7 +56,7 @@ CHECKS["C16"] = ("bfs + devdfs (worker subprocesses)", "model_checking",
 CHECKS["C17"] = ("devdfs (worker subprocesses)", "fault_enumeration",
     "deviation-bounded enumeration of environment events (wake, SIGWINCH, SIGTERM, input, hang-up) at every system-call boundary and of every crash point, real UnixTerminal on a pty",
     "Same explorer as C16(b). In addition a waker call, SIGWINCH, SIGTERM, the next input bytes or a hang-up may land before ANY select/write/read or between the signal, waker and input "
-    "phases of the poll loop (hook points), each costing one deviation; polls use timeouts 0, 5 ms (virtual clock) and infinite; bursts of 127 / 128 / 256 / 1024 wake requests before one poll; a termination and a window-size signal pending together in both orders; the terminal is released after every prefix of every session. "
+    "phases of the poll loop (hook points), each costing one deviation; polls use timeouts 0, 5 ms (virtual clock) and infinite; bursts of 127 / 128 / 256 / 1024 wake requests before one poll; a termination and a window-size signal pending together in both orders; three wake requests at every triple of points; two terminal objects one after the other on one pty device number (the first hung up before its release, the second with other initial line settings; real system calls, in a child process); the terminal is released after every prefix of every session. "
     "Oracle: a wake is followed by a Wake event from the current or a later poll and never blocks a poll for ever; SIGWINCH yields a Resize; SIGTERM yields the quit error; input bytes come out "
     "as the events a reference decoder gives, in order; no quit without cause; after release tcgetattr equals the saved settings and, if the tty kept accepting writes, the closing sequence "
     "(cursor visible, mouse modes off) was delivered. Every failing schedule is replayed twice and must fail identically.",
@@ -66,7 +66,7 @@ CHECKS["C17"] = ("devdfs (worker subprocesses)", "fault_enumeration",
 CHECKS["C02"] = ("sweep (worker subprocesses)", "exploration",
     "exhaustive enumeration of byte strings, UTF-8 lattice, hostile-token lattice and edit neighbourhoods in worker subprocesses",
     "Every byte string up to length 2 (3) over all 256 bytes for the three decoders, the UTF-8 boundary lattice (every lead byte x boundary continuation bytes) and every Unicode scalar value, "
-    "36 sequence templates x a 16-value hostile number lattice for every numeric field plus ~120 fixed malformed tokens, 16 sequence shapes with one numeric field taking EVERY value 0..=70 000 (every value up to 0x110010), and all single (double) byte edits of 130 base tokens are fed whole, "
+    "36 sequence templates x a 16-value hostile number lattice for every numeric field plus ~120 fixed malformed tokens, 16 sequence shapes with one numeric field taking EVERY value 0..=70 000 (every value up to 0x110010), 600 giant sequences (string introducers followed by 64 KiB .. 1.1 MB of one byte and five tails), and all single (double) byte edits of 130 base tokens are fed whole, "
     "at every cut, byte by byte and with empty reads (all partitions up to length 5). Oracle: no panic, no abort or stall of the worker process (attributed to the exact input through a memory-mapped progress record "
     "and confirmed in a fresh process), decode returns None once input is exhausted and keeps doing so, every char is a scalar value, raw events are non-empty, and every numeric field of a recognised event is the exact "
     "transmitted value, the type's maximum, or the sequence is unrecognised. Strings over the representative alphabet up to length 4-5 under all partitions run through the same driver in C03.",
@@ -77,7 +77,7 @@ CHECKS["C11"] = ("bfs / history enumeration", "model_checking",
     "exhaustive enumeration of draw/erase/response histories on the real KittyImageHandler against an independent kitty-graphics parser and reference terminal image store",
     "All histories of depth 3 (no de-duplication; 1.19 M) and, de-duplicated by (transmitted ids, reference terminal state), depth 4 (6) over a 106-operation alphabet (7 images incl. 1x1, cropped/strided view, equal pixels in another allocation, "
     "empty, exactly-4096-byte payload, three-chunk payload; 4 positions incl. the origin and (65535,65535); draw, erase(Some), erase(None), OK and error responses for known and unknown ids, unrelated events) are executed on the real handler, "
-    "plus every history of 2 (3) operations over a second set of 11 images that differ in memory layout (row-major, transposed, windows with gaps, re-allocated copies; ids must be injective on content), the .quiet() handler, 1 024 single-pixel images over every channel value and thousands of sizes across the chunk boundaries. The emitted bytes are parsed by an independent APC/kitty parser and fed to a reference terminal store; "
+    "plus every history of 2 (3) operations over a second set of 11 images that differ in memory layout (row-major, transposed, windows with gaps, re-allocated copies; ids must be injective on content), volume histories (a 134 MB image drawn twice; thorough: 12 x 16 MiB and 40 x 4 MiB images twice), sinks that take 1 / 7 bytes per call, the .quiet() handler, 1 024 single-pixel images over every channel value and thousands of sizes across the chunk boundaries. The emitted bytes are parsed by an independent APC/kitty parser and fed to a reference terminal store; "
     "oracle: valid commands, s/v = image size, f=32, chunks <= 4096 and multiples of 4 with correct m flags, payload base64-decodes to the exact RGBA pixels row-major, at most one transmission per content (plus one per evicting error), "
     "every put names a transmitted image, erase(img, Some(pos)) removes exactly the placement draw(img,pos) created.",
     "Trusts the reading of the kitty graphics protocol in model/kitty.rs (p=0 = unspecified); id hash collisions are out of reach of enumeration.",
@@ -85,7 +85,7 @@ CHECKS["C11"] = ("bfs / history enumeration", "model_checking",
 CHECKS["C12"] = ("sweep", "exploration",
     "exhaustive small-image sweep decoded by an independent sixel interpreter",
     "All colourings of 6x1 and 6x2 images over 3 colours and 6x3 over 2 (thorough: 6x2 over 4, 6x4, 12x1, 12x2), all constant-column single-band images up to width 12 (16), heights {6,7,11,12,13} x widths 1..5, >256 colour gradients, "
-    "alpha {0,128,255} over three backgrounds, 1 260 crops, every channel value, repeated draws on shared handlers: 0.82 M (51.8 M) images. The emitted bytes are decoded by an independent sixel interpreter (raster attributes, colour registers, "
+    "alpha {0,128,255} over three backgrounds, 1 260 crops, every channel value, runs of fully transparent black pixels, repeated draws on shared handlers and into sinks that take 1 / 7 bytes per call: 0.82 M (51.8 M) images. The emitted bytes are decoded by an independent sixel interpreter (raster attributes, colour registers, "
     "repeat, $, -) into an unpainted-initialised raster; oracle: one well-formed sequence, declared size = width x 6*floor(h/6), every pixel painted exactly inside the raster, only defined registers (<= 256), pixel-exact equality at 0-100 "
     "resolution when the colours fit and the image is not subsampled, second draw byte-identical.",
     "Trusts the sixel reading of model/sixel.rs; partial alpha is only checked to lie between pixel and background; images above the subsampling threshold are checked for structure only.",
@@ -110,7 +110,7 @@ CHECKS["C18"] = ("bfs + sweep", "model_checking",
     "BFS over histories of register(chord of length 1-3 over {a,b,ctrl+c}) to depth 3 (4) and over {a,b} to depth 4 (6) with an observational key (for_each listing + lookup of every chord up to length 4): in every state all lookups, "
     "the enumeration and register's return value are compared with a last-writer-wins prefix-free dictionary. register_override over all ordered pairs of 1 435 (2 729) small maps. KeyMapHandler/lookup_state on every prefix-free set of up to 3 (4) chords x "
     "every key string up to length 5 (6) over {a,b,c,x}: fires exactly at the last key from idle, an unbound key never blocks the next chord, every firing is sound. Parsers: all strings of <= 3 (5) tokens over a 24-token alphabet, f+1..30 digits, "
-    "every KeyName x 2^9 modifier sets printed and re-parsed, every code point below U+3000 (every scalar value) in ten raw spellings (bare, quoted, with modifiers, inside chords), all ordered pairs of 22 modifier-like words around four keys in five arrangements; "
+    "every KeyName x 2^9 modifier sets printed and re-parsed, every code point below U+3000 (every scalar value) in ten raw spellings (bare, quoted, with modifiers, inside chords), all ordered pairs of 22 modifier-like words around four keys in five arrangements; a registration BFS over keys that are easy to confuse (F1, F(1+2^32), Tab, the tab character); "
     "registrations between two chords: for all ordered pairs of 195 small binding sets, a matcher that the statement calls idle must answer like a fresh one after the second set is registered (lookup_state with the caller's buffer and KeyMapHandler).",
     "What happens after a partially typed chord is abandoned by a key that itself begins a chord is not demanded (statement silent); chords longer than 3 as registrations are not explored.",
     "DESIGN.md §C18")
@@ -118,13 +118,13 @@ CHECKS["C20"] = ("sweep", "exploration",
     "complete sweep of all 2^24 colours through the real encoder against brute force over the xterm palette",
     "All 2^24 opaque colours are encoded with the real TTYEncoder as Face.fg under EightBit, Gray and TrueColor (quick; bg and underline colour on the complete 65^3 lattice), and at all five call sites (Face.fg/bg, FaceModify.fg/bg/underline_color) in thorough; "
     "the emitted SGR is parsed independently. EightBit: index in 16..=255 whose distance (library's LinColor metric, palette from its sRGB xterm definition) is within 1e-5 of the brute-force minimum over all 240 entries; Gray: nearest of the four levels by luma and monotone over the sorted sweep; "
-    "TrueColor: exact r;g;b. Two-emission histories on one encoder (16^3 colour lattice x {same colour, neighbour, half-transparent twin} x 25 role pairs x 3 depths): the second emission is judged like a fresh encoder's.",
+    "TrueColor: exact r;g;b. Two-emission histories on one encoder (16^3 colour lattice x {same colour, neighbour, half-transparent twin} x 25 role pairs x 3 depths) and both colours in one Face / FaceModify command: each emission is judged like a fresh encoder's.",
     "Trusts LinColor::distance / From<RGBA> as the metric the statement refers to; ties within 1e-5 (table rounding) are not judged.",
     "DESIGN.md §C20")
 
 CHECKS["C04"] = ("sweep", "exploration",
     "exhaustive enumeration of every sequence family x parameter lattice from an independent protocol printer, plus all pairs/triples of tokens under all <= 2-cut partitions",
-    "An independent printer (model/keytable.rs: golden key table + per-family encoders written from xterm ctlseqs / kitty / fixterms) emits every legacy key, SGR mouse report (all 256 button codes x m/M x coordinate lattice incl. 1 and 65535), "
+    "An independent printer (model/keytable.rs: golden key table + per-family encoders written from xterm ctlseqs / kitty / fixterms) emits every legacy key, pastes and kitty messages of 255 B .. 1.1 MB read whole and in reads of 4 KiB / 64 KiB / 1 MB, parameters padded with zeros to 2..40 digits, SGR mouse report (all 256 button codes x m/M x coordinate lattice incl. 1 and 65535), "
     "cursor / size / DECRPM / DA1 / OSC 4,10,11 (every 1-4 digit rgb component) / XTGETTCAP / kitty keyboard (EVERY Unicode scalar value x modifier values, every modifier mask) / kitty image / paste / DECRPSS / SGR (both colour forms, multi-colour) report "
     "and every printable scalar as text: 8.3 M distinct inputs, 26 M (318 M) decodes. 69 representative tokens are concatenated in all ordered pairs (and triples) and fed under every partition with at most two cuts. "
     "The decoded event list must equal the printer's intention exactly, arrive with the last byte, and leave nothing buffered.",
@@ -133,7 +133,7 @@ CHECKS["C04"] = ("sweep", "exploration",
 CHECKS["C05"] = ("sweep", "exploration",
     "exhaustive enumeration of commands x parameter lattices x capability configurations, interpreted by an independent ECMA-48/xterm parser",
     "All 28 TerminalCommand variants x boundary lattices (positions/counts {0,1,2,9,10,99,65535}, signed moves and scrolls over {MIN,MIN+1,-10,-1,0,1,10,MAX}^2, all DEC modes, palette names and colours, every printable title / capability name up to length 2 (3), "
-    "every value 0..=70 000 of each numeric parameter of CursorTo / CursorMove / Scroll / ScrollRegion / EraseChars / KeyboardLevel / Color and every scalar value as Char, titles / names / raw payloads of 31..70 000 bytes, 150 528 (3.05 M) faces = colours x all attribute sets x underline styles, 72 576 face modifications) x 12 configurations (3 colour depths x kitty keyboard x glyphs) are encoded by the real TTYEncoder and parsed by model/ecma48.rs "
+    "every value 0..=70 000 of each numeric parameter of CursorTo / CursorMove / Scroll / ScrollRegion / EraseChars / KeyboardLevel / Color and every scalar value as Char, titles / names / raw payloads of 31..70 000 bytes, every command after an encode that failed in the writer at every offset, a sink that takes one byte per call, 150 528 (3.05 M) faces = colours x all attribute sets x underline styles, 72 576 face modifications) x 12 configurations (3 colour depths x kitty keyboard x glyphs) are encoded by the real TTYEncoder and parsed by model/ecma48.rs "
     "(byte-level C0/ESC/CSI/OSC/DCS/APC parser + operation decoder written from ECMA-48 / xterm ctlseqs); the operation list must equal the command's denotation with exact parameters, SGR must select exactly the requested rendition from three different "
     "start renditions, encode never panics; all 2 025 ordered pairs of 45 representative commands in one stream must parse back to the concatenation (self-containedness); colour history: every ordered pair of 24 colours (6 RGB x 4 alpha values) "
     "in every ordered pair of colour slots under the three depths, as two commands on one encoder and as one command, must convert each colour as a fresh encoder does.",
@@ -152,7 +152,7 @@ CHECKS["C07"] = ("bfs", "model_checking",
     "Bases with sides 0..=5 (0..=8) in a dense and a strided/padded layout, 122 operations (transpose and view(rows, cols) over an 11-symbol selector alphabet incl. negative, inclusive, open, empty and out-of-range bounds); key = base + Shape; the BFS runs to the "
     "fixpoint (5 001 / 57 794 states, so chain length is unbounded). Every transition re-executes the program through five ownership paths (view on &S, view_mut, view_owned on &mut S, nested owned view over Box<dyn SurfaceMut>, and - for chains of up to 4 steps - method calls on values of the concrete view types, "
     "so the caller's method resolution is exercised) which must agree, and runs the full access battery: "
-    "get/get_mut inside and in a ring outside (incl. usize::MAX probes), iter (count, order, position, index), iter_mut with the raw addresses of all yielded references required pairwise distinct and inside the window, nth, fill, fill_with, clear, insert at every offset, map, "
+    "get/get_mut inside and in a ring outside (incl. usize::MAX probes), iter (count, order, position, index), every iterator adaptor a type may override (fold, for_each, collect, count, last, size_hint, find, position, all) after k items taken with next, iter_mut with the raw addresses of all yielded references required pairwise distinct and inside the window, nth, fill, fill_with, clear, insert at every offset, map, "
     "to_owned_surf, each against the window model, with a sentinel copy of the base compared after every mutation. Thorough adds a Miri replay of a reduced program set (supplementary UB detector, never the decider).",
     "Range resolution itself is C08; the `end` field is judged by its documentation ('offset of the last + 1 element'); sides above 8 and selectors outside the alphabet are not explored.",
     "DESIGN.md §C07")
@@ -174,7 +174,7 @@ CHECKS["C10"] = ("sweep", "exploration",
     "DESIGN.md §C10")
 CHECKS["C13"] = ("sweep", "exploration",
     "exhaustive small-image and small-palette sweeps against brute-force nearest-colour search",
-    "All images of up to 4 (6) pixels over a 12-colour alphabet in every arrangement (crops of a poisoned border included), all multiset images with each colour 0..=2 times (so that the octree pruning loop is reached: it needs >= 9 distinct colours), subsampled periodic images, flat 1 x n images around the counts where a channel sum leaves the exact range of f32 (n = 65 788..65 812, 132 107, 197 381), all images of up to 4 pixels over two RGB values x five alpha values, "
+    "All images of up to 4 (6) pixels over a 12-colour alphabet in every arrangement (crops of a poisoned border included), all multiset images with each colour 0..=2 times (so that the octree pruning loop is reached: it needs >= 9 distinct colours), subsampled periodic images, flat 1 x n images around the counts where a channel sum leaves the exact range of f32 (n = 65 788..65 812, 132 107, 197 381), all images of up to 4 pixels over three RGB values (black among them) x five alpha values, images of 65 535 .. 67 584 distinct colours with 70 000 requested, "
     "x requested sizes {1..10, 256} x dithering on/off x 2 (3) backgrounds: 15.8 M (414 M) quantisations; all palettes of 1-3 colours over a 4^3 lattice x 125 queries and 5 (8) structured palettes of 2..512 colours (xterm-256, clustered, all-equal, duplicates) x ALL 2^24 queries against brute force. "
     "Oracle: Some for non-empty images, 1 <= |palette| <= max(requested, 8), indices valid, without dithering each pixel maps to an entry at minimal squared RGB distance from the composited pixel, find is minimal for every query, exact reproduction when the distinct colours fit and the image is not subsampled; a watchdog turns a stuck pruning loop into a violation.",
     "Compositing of transparent pixels uses the rasterize crate's blend_over (assumed); which of several tied entries wins is not judged; palettes smaller than necessary are allowed by the statement (measured and reported as a lead).",
@@ -182,7 +182,7 @@ CHECKS["C13"] = ("sweep", "exploration",
 CHECKS["C19"] = ("sweep (worker subprocesses)", "exploration",
     "complete round-trip lattices + deviation-bounded enumeration of JSON mutations in resource-limited worker subprocesses",
     "Round trips: 2.74 M faces (thorough: the full 48.2 M product of colours incl. alpha x attribute sets) through Display/FromStr and serde, every writable key x 256 modifier sets, chords up to length 3, sizes over {0,1,2,65535,usize::MAX}^2, all crops of images up to 3x3 and 1x1000, hand-built 1/3/4-channel inputs. "
-    "Hostile documents: 12 valid seed documents (Image, Glyph, Text, view trees using every view type) with EVERY single mutation (5 615) in quick and EVERY pair of mutations (2.6 M) in thorough from a 20-value replacement alphabet (null, numbers up to 2^64-1 and 1e308, empty / deep arrays, an ill-typed leaf under 12 and 120 nested arrays, wrapped sizes, broken base64, every view type name, 100- and 1000-deep nests) plus key deletion, duplication and swaps, "
+    "Hostile documents: 12 valid seed documents (Image, Glyph, Text, view trees using every view type) with EVERY single mutation (5 615) in quick and EVERY pair of mutations (2.6 M) in thorough from a 20-value replacement alphabet (null, numbers up to 2^64-1 and 1e308, empty / deep arrays, an ill-typed leaf under 12 and 120 nested arrays, a repeated size key with another value, padding inside the base64 text, image documents in every key order, wrapped sizes, broken base64, every view type name, 100- and 1000-deep nests) plus key deletion, duplication and swaps, "
     "each through the JSON text route and the Value route, in worker subprocesses with an 8 MiB stack, a 3 GiB address-space limit and an 8 s stall timeout. Oracle: deserialisation returns (no panic, abort, stack overflow, stall); every view tree that deserialises is laid out under 6 constraints and rendered into a sentinel-bordered canvas without panicking; accepted and rejected counts must both be non-zero per deserialiser.",
     "Documents larger than the seeds and mutation sets larger than pairs are not enumerated; serde_json's own recursion limit is trusted.",
     "DESIGN.md §C19")
